@@ -17,156 +17,52 @@ open LolHtml.Lemmas.Nth LolHtml.Lemmas.AttrMatch
 
 /-! ## `:nth-child(An+B)` / `:nth-of-type(An+B)` -/
 
-/-- **C04_nth_total.** `has_index` never panics: the `wrapping_rem` division-by-zero branch is
-unreachable, for all `i32` triples. -/
+/-- **C04_nth_total.** `has_index` never panics: no `i64` overflow in `index as i64 - offset as i64`,
+no zero divisor and no `i64::MIN % -1` in `offsetted % step`, for all `i32` triples. -/
 theorem C04_nth_total (a b i : Int32) : ∃ r, hasIndex ⟨a, b⟩ i = some r :=
   ⟨_, hasIndex_eq a b i⟩
 
-/-- **C04_nth_exact.** What `has_index` computes, for *all* `i32` triples: whether the *wrapped*
-difference `(I − B) bmod 2³²` is a non-negative multiple of `A`. (Everything except
-`index.wrapping_sub(offset)` is exact, including `i32::MIN.wrapping_rem(-1)`.) -/
-theorem C04_nth_exact (a b i : Int32) :
-    hasIndex ⟨a, b⟩ i = some true ↔
-      Matches a.toInt 0 ((i.toInt - b.toInt).bmod (2 ^ 32)) := by
-  rw [hasIndex_eq, Option.some.injEq, intHasIndex_iff]
-  unfold Matches
-  simp only [Int.add_zero]
-
-/-- **C04_nth.** The property, under the weakest hypothesis that makes it true for every step `a`:
-`I − B` is representable as an `i32`. No condition on the sign of `i` is needed. -/
-theorem C04_nth (a b i : Int32)
-    (hlo : -2 ^ 31 ≤ i.toInt - b.toInt) (hhi : i.toInt - b.toInt < 2 ^ 31) :
+/-- **C04_nth.** The property at full strength: for **all** `i32` triples (no condition on the sign
+of `i`, no range condition), `has_index` answers `true` exactly when `I = A·n + B` for some
+non-negative integer `n` — over the mathematical integers. -/
+theorem C04_nth (a b i : Int32) :
     hasIndex ⟨a, b⟩ i = some true ↔ Matches a.toInt b.toInt i.toInt := by
-  rw [C04_nth_exact, Int.bmod_eq_of_le (by omega) (by omega)]
+  rw [hasIndex_eq, Option.some.injEq, intHasIndex_iff]
   unfold Matches
   constructor <;> rintro ⟨n, hn⟩ <;> exact ⟨n, by omega⟩
 
-/-- **C04_nth_pos.** As used by the implementation (`index` is a child counter, `0 < i`): the iff
-holds whenever `I − B < 2³¹`, in particular (next theorem) for every `b ≥ −2³¹ + i`. -/
-theorem C04_nth_pos (a b i : Int32) (hi : 0 < i) (h : i.toInt - b.toInt < 2 ^ 31) :
-    hasIndex ⟨a, b⟩ i = some true ↔ Matches a.toInt b.toInt i.toInt := by
-  have hi' : 0 < i.toInt := by rw [Int32.lt_iff_toInt_lt] at hi; simpa using hi
-  have := b.toInt_lt
-  exact C04_nth a b i (by omega) h
+/-- The same as a decision in both directions: the answer is `false` exactly when there is no
+such `n` (a corollary of totality + `C04_nth`). -/
+theorem C04_nth_false (a b i : Int32) :
+    hasIndex ⟨a, b⟩ i = some false ↔ ¬ Matches a.toInt b.toInt i.toInt := by
+  rw [← C04_nth]
+  obtain ⟨r, hr⟩ := C04_nth_total a b i
+  rw [hr]
+  cases r <;> simp
 
-/-- Every non-negative offset is safe (`:nth-child(an+b)`, `b ≥ 0`, any `a`, any child index). -/
-theorem C04_nth_nonneg_offset (a b i : Int32) (hi : 0 < i) (hb : 0 ≤ b) :
-    hasIndex ⟨a, b⟩ i = some true ↔ Matches a.toInt b.toInt i.toInt := by
-  have hb' : 0 ≤ b.toInt := by rw [Int32.le_iff_toInt_le] at hb; simpa using hb
-  have := i.toInt_lt
-  exact C04_nth_pos a b i hi (by omega)
+/-- The property as stated in the brief (all `i32` triples with `0 < i`) — now a theorem. -/
+theorem C04_nth_pos (a b i : Int32) (_hi : 0 < i) :
+    hasIndex ⟨a, b⟩ i = some true ↔ Matches a.toInt b.toInt i.toInt :=
+  C04_nth a b i
 
-/-- The property as stated in the brief (all `i32` triples with `0 < i`). It is **false**
-(`C04_nth_statement_false`): the code comment "we won't wrap around anyway … since index is always
-more than 0" (ast.rs:23-24) overlooks very negative offsets. -/
-def C04_nth_statement : Prop :=
-  ∀ a b i : Int32, 0 < i → (hasIndex ⟨a, b⟩ i = some true ↔ Matches a.toInt b.toInt i.toInt)
+/-- Regression of the repaired defect (commit 614f5b5), formerly the two counterexamples:
+`:nth-child(n-2147483648)` selects the first child (`n = 2³¹ + 1`), `:nth-child(-n-2147483647)`
+does not. -/
+theorem C04_nth_extreme_offsets :
+    hasIndex ⟨1, -2147483648⟩ 1 = some true ∧ hasIndex ⟨-1, -2147483647⟩ 1 = some false ∧
+    hasIndex ⟨-1, -2147483648⟩ 2147483647 = some false ∧
+    hasIndex ⟨2147483647, -2147483648⟩ 2147483647 = some false ∧
+    hasIndex ⟨-2147483648, 2147483647⟩ (-2147483648) = some false ∧
+    hasIndex ⟨-1, 2147483647⟩ (-2147483648) = some true := by decide
 
-/-- False negative: `:nth-child(n-2147483648)` selects every child (`n = 2³¹ + i`), the code selects
-none: `1.wrapping_sub(i32::MIN) = i32::MIN + 1 < 0` with `step > 0`. -/
-theorem C04_nth_counterexample_false_negative :
-    hasIndex ⟨1, -2147483648⟩ 1 = some false ∧ Matches (1 : Int32).toInt (-2147483648 : Int32).toInt (1 : Int32).toInt :=
-  ⟨by decide, ⟨2147483649, by decide⟩⟩
-
-/-- False positive: `:nth-child(-n-2147483647)` selects nothing (`−n − 2147483647 ≤ −2147483647`),
-the code selects the first child: `1.wrapping_sub(-2147483647) = i32::MIN`, `MIN.wrapping_rem(-1) = 0`. -/
-theorem C04_nth_counterexample_false_positive :
-    hasIndex ⟨-1, -2147483647⟩ 1 = some true ∧ ¬ Matches (-1 : Int32).toInt (-2147483647 : Int32).toInt (1 : Int32).toInt := by
-  refine ⟨by decide, ?_⟩
-  rintro ⟨n, hn⟩
-  have h1 : (-1 : Int32).toInt = -1 := by decide
-  have h2 : (-2147483647 : Int32).toInt = -2147483647 := by decide
-  have h3 : (1 : Int32).toInt = 1 := by decide
-  rw [h1, h2, h3] at hn
-  omega
-
-theorem C04_nth_statement_false : ¬ C04_nth_statement := by
-  intro h
-  have := (h 1 (-2147483648) 1 (by decide)).2 C04_nth_counterexample_false_negative.2
-  rw [C04_nth_counterexample_false_negative.1] at this
-  cases this
-
-private theorem exists_mul_pos {a x : Int} (hx : 0 < x) :
-    (∃ n : Nat, a * (n : Int) = x) ↔ 0 < a ∧ a ∣ x := by
-  constructor
-  · rintro ⟨n, hn⟩
-    refine ⟨?_, ⟨n, hn.symm⟩⟩
-    rcases Int.lt_or_le 0 a with h | h
-    · exact h
-    · have : a * (n : Int) ≤ 0 := Int.mul_nonpos_of_nonpos_of_nonneg h (by omega)
-      omega
-  · rintro ⟨ha, k, hk⟩
-    have hk0 : 0 ≤ k := by
-      rcases Int.lt_or_le k 0 with h | h
-      · have : a * k < 0 := Int.mul_neg_of_pos_of_neg ha h
-        omega
-      · exact h
-    exact ⟨k.toNat, by rw [Int.toNat_of_nonneg hk0]; exact hk.symm⟩
-
-private theorem exists_mul_neg {a x : Int} (hx : x < 0) :
-    (∃ n : Nat, a * (n : Int) = x) ↔ a < 0 ∧ a ∣ x := by
-  constructor
-  · rintro ⟨n, hn⟩
-    refine ⟨?_, ⟨n, hn.symm⟩⟩
-    rcases Int.lt_or_le a 0 with h | h
-    · exact h
-    · have : 0 ≤ a * (n : Int) := Int.mul_nonneg h (by omega)
-      omega
-  · rintro ⟨ha, k, hk⟩
-    have hk0 : 0 ≤ k := by
-      rcases Int.lt_or_le k 0 with h | h
-      · have : 0 < a * k := Int.mul_pos_of_neg_of_neg ha h
-        omega
-      · exact h
-    exact ⟨k.toNat, by rw [Int.toNat_of_nonneg hk0]; exact hk.symm⟩
-
-/-- **C04_nth_wrap.** Exactly what happens outside the hypothesis of `C04_nth_pos`
-(`0 < i`, `I − B ≥ 2³¹`, i.e. `b ≤ i − 2³¹`): CSS selects `i` iff `A > 0 ∧ A ∣ I − B`, the code selects
-it iff `A < 0 ∧ A ∣ I − B − 2³²`. The two never hold together, so in this zone code and CSS agree
-only where both say "no". -/
-theorem C04_nth_wrap (a b i : Int32) (hi : 0 < i) (h : 2 ^ 31 ≤ i.toInt - b.toInt) :
-    (Matches a.toInt b.toInt i.toInt ↔ 0 < a.toInt ∧ a.toInt ∣ i.toInt - b.toInt) ∧
-    (hasIndex ⟨a, b⟩ i = some true ↔ a.toInt < 0 ∧ a.toInt ∣ i.toInt - b.toInt - 2 ^ 32) := by
-  have hi' : 0 < i.toInt := by rw [Int32.lt_iff_toInt_lt] at hi; simpa using hi
-  have hb := b.le_toInt
-  have hi2 := i.toInt_lt
-  constructor
-  · rw [← exists_mul_pos (by omega)]
-    unfold Matches
-    constructor <;> rintro ⟨n, hn⟩ <;> exact ⟨n, by omega⟩
-  · have hw : (i.toInt - b.toInt).bmod (2 ^ 32) = i.toInt - b.toInt - 2 ^ 32 := by
-      rw [Int.bmod_eq_iff (by decide)]
-      refine ⟨by omega, by omega, ⟨-1, by omega⟩⟩
-    rw [C04_nth_exact, hw, ← exists_mul_neg (by omega)]
-    unfold Matches
-    simp only [Int.add_zero]
-
-/-- **C04_nth_agree_iff.** The exact set of `i32` triples with `0 < i` on which `has_index` is right. -/
-theorem C04_nth_agree_iff (a b i : Int32) (hi : 0 < i) :
-    (hasIndex ⟨a, b⟩ i = some true ↔ Matches a.toInt b.toInt i.toInt) ↔
-      (i.toInt - b.toInt < 2 ^ 31 ∨
-        (¬ (0 < a.toInt ∧ a.toInt ∣ i.toInt - b.toInt) ∧
-         ¬ (a.toInt < 0 ∧ a.toInt ∣ i.toInt - b.toInt - 2 ^ 32))) := by
-  by_cases h : i.toInt - b.toInt < 2 ^ 31
-  · simp only [h, true_or, iff_true]; exact C04_nth_pos a b i hi h
-  · obtain ⟨h1, h2⟩ := C04_nth_wrap a b i hi (by omega)
-    rw [h1, h2]
-    simp only [h, false_or]
-    constructor
-    · intro hiff
-      constructor
-      · intro hp; have := hiff.2 hp; omega
-      · intro hn; have := hiff.1 hn; omega
-    · rintro ⟨hp, hn⟩
-      exact ⟨fun x => absurd x hn, fun x => absurd x hp⟩
-
-/-- Non-vacuity: `:nth-child(2n+1)` selects child 5 (`n = 2`) and not child 4; hypotheses of
-`C04_nth_pos` / `C04_nth_wrap` are satisfiable. -/
+/-- Non-vacuity: `:nth-child(2n+1)` selects child 5 (`n = 2`) and not child 4. -/
 example : hasIndex ⟨2, 1⟩ 5 = some true ∧ Matches (2 : Int32).toInt (1 : Int32).toInt (5 : Int32).toInt :=
-  ⟨by decide, (C04_nth_pos 2 1 5 (by decide) (by decide)).1 (by decide)⟩
-example : hasIndex ⟨2, 1⟩ 4 = some false := by decide
+  ⟨by decide, (C04_nth 2 1 5).1 (by decide)⟩
+example : hasIndex ⟨2, 1⟩ 4 = some false ∧ ¬ Matches (2 : Int32).toInt (1 : Int32).toInt (4 : Int32).toInt :=
+  ⟨by decide, (C04_nth_false 2 1 4).1 (by decide)⟩
 example : hasIndex ⟨-3, 7⟩ 1 = some true ∧ hasIndex ⟨-3, 7⟩ 10 = some false := by decide
-example : (0 : Int32) < 1 ∧ (2 : Int) ^ 31 ≤ (1 : Int32).toInt - (-2147483648 : Int32).toInt := by decide
+example : Matches (1 : Int32).toInt (-2147483648 : Int32).toInt (1 : Int32).toInt :=
+  (C04_nth 1 (-2147483648) 1).1 (by decide)
 
 /-! ## Attribute operators -/
 
@@ -208,43 +104,30 @@ theorem C04_attr_substring (cs : CaseSensitivity) (v n : Bytes) :
   obtain ⟨r, hr, hiff⟩ := hasAttrWithSubstringV_iff cs v n
   simp only [evalOpV, hr, Option.some.injEq]; exact hiff
 
-/-- `[att^=val]`: exact for every non-empty operand. -/
-theorem C04_attr_prefix (cs : CaseSensitivity) (v n : Bytes) (hn : n ≠ []) :
+/-- `[att^=val]`: exact, ∀ byte strings (the empty operand never matches), both case modes. -/
+theorem C04_attr_prefix (cs : CaseSensitivity) (v n : Bytes) :
     evalOpV .pre cs v n = some true ↔ OpPrefix (toCase cs) v n := by
-  simp only [evalOpV, Option.some.injEq, hasAttrWithPrefixV_iff, OpPrefix, hn, ne_eq, not_false_eq_true,
-    true_and, and_iff_right_iff_imp]
-  rintro ⟨p, s, rfl, hp⟩ h
-  have := CEq_length hp
-  simp only [List.append_eq_nil_iff] at h
-  rw [h.1] at this
-  exact hn (List.eq_nil_of_length_eq_zero this.symm)
+  simp only [evalOpV, Option.some.injEq]; exact hasAttrWithPrefixV_iff cs v n
 
-/-- `[att$=val]`: exact for every non-empty operand. -/
-theorem C04_attr_suffix (cs : CaseSensitivity) (v n : Bytes) (hn : n ≠ []) :
+/-- `[att$=val]`: exact, ∀ byte strings (the empty operand never matches), both case modes. -/
+theorem C04_attr_suffix (cs : CaseSensitivity) (v n : Bytes) :
     evalOpV .suffix cs v n = some true ↔ OpSuffix (toCase cs) v n := by
   obtain ⟨r, hr, hiff⟩ := hasAttrWithSuffixV_iff cs v n
-  simp only [evalOpV, hr, Option.some.injEq, hiff, OpSuffix, hn, ne_eq, not_false_eq_true, true_and,
-    and_iff_right_iff_imp]
-  rintro ⟨p, s, rfl, hs⟩ h
-  have := CEq_length hs
-  simp only [List.append_eq_nil_iff] at h
-  rw [h.2] at this
-  exact hn (List.eq_nil_of_length_eq_zero this.symm)
+  simp only [evalOpV, hr, Option.some.injEq]; exact hiff
 
-/-- `[att~=val]`: exact for every non-empty operand (an operand containing whitespace never
-matches, on both sides: see `C04_attr_includes_ws_operand`). -/
-theorem C04_attr_includes (cs : CaseSensitivity) (v n : Bytes) (hn : n ≠ []) :
+/-- `[att~=val]`: exact, ∀ byte strings (the empty operand never matches; an operand containing
+whitespace never matches either: `C04_attr_includes_ws_operand`), both case modes. -/
+theorem C04_attr_includes (cs : CaseSensitivity) (v n : Bytes) :
     evalOpV .includes cs v n = some true ↔ OpIncludes (toCase cs) v n := by
-  simp only [evalOpV, Option.some.injEq, matchesSplittedByWhitespaceV_iff, OpIncludes, hn, ne_eq,
-    not_false_eq_true, true_and]
+  simp only [evalOpV, Option.some.injEq, matchesSplittedByWhitespaceV_iff, OpIncludes]
   constructor
-  · rintro ⟨w, hw, he⟩
+  · rintro ⟨hn, w, hw, he⟩
     have hwne : w ≠ [] := by
       intro h; subst h
       exact hn (List.eq_nil_of_length_eq_zero (CEq_length he).symm)
-    exact ⟨w, (isPiece_isWord hwne).1 hw, he⟩
-  · rintro ⟨w, hw, he⟩
-    exact ⟨w, (isPiece_isWord hw.1).2 hw, he⟩
+    exact ⟨hn, w, (isPiece_isWord hwne).1 hw, he⟩
+  · rintro ⟨hn, w, hw, he⟩
+    exact ⟨hn, w, (isPiece_isWord hw.1).2 hw, he⟩
 
 /-- CSS: "if `val` contains whitespace, `[att~=val]` never represents anything" — a consequence of
 the declarative spec, hence (by `C04_attr_includes`) of the code as well. -/
@@ -261,62 +144,58 @@ theorem C04_attr_includes_ws_operand (c : Case) (v n : Bytes) (b : UInt8) (hb : 
     have hxw : IsWhitespace (lower x) := by rw [hxl]; exact (lower_ws b).2 hws
     exact hfree x hx ((lower_ws x).1 hxw)
 
-/-- The brief's statement for the six operators at full strength. It is **false**
-(`C04_attr_ops_statement_false`): three operators mishandle the empty operand. -/
-def C04_attr_ops_statement : Prop :=
-  ∀ (op : Op) (cs : CaseSensitivity) (v n : Bytes),
-    evalOpV op cs v n = some true ↔ OpHolds op (toCase cs) v n
-
-/-- **C04_attr_ops_partial.** Each of the six operator closures equals its CSS definition, in both
-case modes, for all byte strings — except `^=`, `$=`, `~=` with the *empty* operand. -/
-theorem C04_attr_ops_partial (op : Op) (cs : CaseSensitivity) (v n : Bytes)
-    (h : n ≠ [] ∨ op = .equal ∨ op = .dashMatch ∨ op = .substring) :
+/-- **C04_attr_ops.** Each of the six operator closures equals its CSS definition, in both case
+modes, for **all** byte strings (values and operands, empty ones included). -/
+theorem C04_attr_ops (op : Op) (cs : CaseSensitivity) (v n : Bytes) :
     evalOpV op cs v n = some true ↔ OpHolds op (toCase cs) v n := by
   cases op
   · exact C04_attr_eq cs v n
-  · exact C04_attr_includes cs v n (by rcases h with h | h | h | h <;> first | exact h | cases h)
+  · exact C04_attr_includes cs v n
   · exact C04_attr_dash cs v n
-  · exact C04_attr_prefix cs v n (by rcases h with h | h | h | h <;> first | exact h | cases h)
-  · exact C04_attr_suffix cs v n (by rcases h with h | h | h | h <;> first | exact h | cases h)
+  · exact C04_attr_prefix cs v n
+  · exact C04_attr_suffix cs v n
   · exact C04_attr_substring cs v n
 
-/-- What the code does with the empty operand, exactly: `[att^=""]` and `[att$=""]` match every
-element whose `att` is present with a **non-empty** value (the code tests `!actual_value.is_empty()`
-where CSS demands a non-empty *operand*); `[att~=""]` matches when the value is empty, starts or ends
-with whitespace, or has two adjacent whitespace bytes (`split` yields an empty piece).
-CSS: none of the three ever matches. -/
+/-- The empty operand (repaired in commit 11ef1d1): `^=`, `$=`, `~=`, `*=` with `""` never match,
+whatever the value — in the code and in CSS; `=""` matches exactly the empty value and `|=""` the
+empty value and values starting with `-` (CSS has no empty-operand rule for these two). -/
 theorem C04_attr_empty_operand (cs : CaseSensitivity) (v : Bytes) :
-    (evalOpV .pre cs v [] = some true ↔ v ≠ []) ∧
-    (evalOpV .suffix cs v [] = some true ↔ v ≠ []) ∧
-    (evalOpV .includes cs v [] = some true ↔ IsPiece isAttrWhitespace v []) ∧
-    ¬ OpPrefix (toCase cs) v [] ∧ ¬ OpSuffix (toCase cs) v [] ∧ ¬ OpIncludes (toCase cs) v [] := by
-  refine ⟨?_, ?_, ?_, by simp [OpPrefix], by simp [OpSuffix], by simp [OpIncludes]⟩
-  · simp only [evalOpV, Option.some.injEq, hasAttrWithPrefixV_iff, and_iff_left_iff_imp]
-    intro _; exact ⟨[], v, rfl, CEq_nil_right.2 rfl⟩
-  · obtain ⟨r, hr, hiff⟩ := hasAttrWithSuffixV_iff cs v []
-    simp only [evalOpV, hr, Option.some.injEq, hiff, and_iff_left_iff_imp]
-    intro _; exact ⟨v, [], by simp, CEq_nil_right.2 rfl⟩
-  · simp only [evalOpV, Option.some.injEq, matchesSplittedByWhitespaceV_iff]
+    evalOpV .pre cs v [] = some false ∧ evalOpV .suffix cs v [] = some false ∧
+    evalOpV .includes cs v [] = some false ∧ evalOpV .substring cs v [] = some false ∧
+    (evalOpV .equal cs v [] = some true ↔ v = []) ∧
+    (evalOpV .dashMatch cs v [] = some true ↔ v = [] ∨ ∃ s, v = 45 :: s) := by
+  have hfalse : ∀ op, ¬ OpHolds op (toCase cs) v [] → evalOpV op cs v [] = some false := by
+    intro op h
+    obtain ⟨r, hr⟩ := C04_attr_ops_total op cs v []
+    cases r with
+    | false => exact hr
+    | true => exact absurd ((C04_attr_ops op cs v []).1 hr) h
+  refine ⟨hfalse .pre (by simp [OpHolds, OpPrefix]), hfalse .suffix (by simp [OpHolds, OpSuffix]),
+    hfalse .includes (by simp [OpHolds, OpIncludes]), hfalse .substring (by simp [OpHolds, OpSubstring]),
+    ?_, ?_⟩
+  · rw [C04_attr_eq]; exact CEq_nil_right
+  · rw [C04_attr_dash]
+    simp only [OpDashMatch, CEq_nil_right]
     constructor
-    · rintro ⟨w, hw, he⟩; rw [CEq_nil_right.1 he] at hw; exact hw
-    · intro h; exact ⟨[], h, CEq_nil_right.2 rfl⟩
+    · rintro (h | ⟨p, s, rfl, rfl⟩)
+      · exact Or.inl h
+      · exact Or.inr ⟨s, rfl⟩
+    · rintro (h | ⟨s, rfl⟩)
+      · exact Or.inl h
+      · exact Or.inr ⟨[], s, rfl, rfl⟩
 
-/-- `[k^=""]` on `k="a"`, `[k$=""]` on `k="a"`, `[k~=""]` on `k=""` and on `k="a "`: the code matches. -/
-theorem C04_attr_empty_operand_counterexamples :
-    evalOpV .pre .caseSensitive [97] [] = some true ∧
-    evalOpV .suffix .caseSensitive [97] [] = some true ∧
-    evalOpV .includes .caseSensitive [] [] = some true ∧
-    evalOpV .includes .caseSensitive [97, 32] [] = some true := by decide
-
-theorem C04_attr_ops_statement_false : ¬ C04_attr_ops_statement := by
-  intro h
-  have := (h .pre .caseSensitive [97] []).1 C04_attr_empty_operand_counterexamples.1
-  exact (C04_attr_empty_operand .caseSensitive [97]).2.2.2.1 this
+/-- Regression of the repaired defect, formerly the counterexamples: `[k^=""]` on `k="a"`,
+`[k$=""]` on `k="a"`, `[k~=""]` on `k=""` and on `k="a "` do not match. -/
+theorem C04_attr_empty_operand_regression :
+    evalOpV .pre .caseSensitive [97] [] = some false ∧
+    evalOpV .suffix .caseSensitive [97] [] = some false ∧
+    evalOpV .includes .caseSensitive [] [] = some false ∧
+    evalOpV .includes .caseSensitive [97, 32] [] = some false := by decide
 
 /-- Non-vacuity: `[k~="b" i]` on `k="a  B "` (two spaces, trailing space) — word `B`. -/
 example : evalOpV .includes .asciiCaseInsensitive [97, 32, 32, 66, 32] [98] = some true ∧
     OpIncludes .asciiInsensitive [97, 32, 32, 66, 32] [98] :=
-  ⟨by decide, (C04_attr_includes .asciiCaseInsensitive _ _ (by decide)).1 (by decide)⟩
+  ⟨by decide, (C04_attr_includes .asciiCaseInsensitive _ _).1 (by decide)⟩
 /-- `[k*="bc" i]` on `k="abBC"`: the first candidate `bB` fails, the loop goes on and finds `BC`. -/
 example : evalOpV .substring .asciiCaseInsensitive [97, 98, 66, 67] [98, 99] = some true ∧
     OpSubstring .asciiInsensitive [97, 98, 66, 67] [98, 99] :=
@@ -341,12 +220,11 @@ theorem C04_case_mode (isHtml : Bool) :
   cases isHtml <;> exact ⟨rfl, rfl, rfl, rfl⟩
 
 /-- **C04_attr_compiled.** The closure the compiler builds for `[name op "value" flag]`
-(compiler.rs:153-184), run on any element: it never panics, and — unless the operand is empty and
-the operator is `^=`/`$=`/`~=` — it fires iff the *first* attribute whose name equals `name`
+(compiler.rs:153-184), run on any element: it never panics, and it fires iff the *first* attribute whose name equals `name`
 ASCII-case-insensitively exists and its value satisfies the CSS definition of the operator in the
 resolved case mode. ∀ attribute lists (duplicates, any case), names, values, operands. -/
 theorem C04_attr_compiled (m : AttributeMatcher) (name value : Bytes) (pcs : ParsedCaseSensitivity)
-    (op : Op) (h : value ≠ [] ∨ op = .equal ∨ op = .dashMatch ∨ op = .substring) :
+    (op : Op) :
     ∃ r, compiledAttrExpr false (.attributeComparison name value pcs op) m = some r ∧
       (r = true ↔ ∃ v, firstAttr m.attributes name = some v ∧
         OpHolds op (toCase (toUnconditional pcs m.isHtmlElement)) v value) := by
@@ -357,7 +235,7 @@ theorem C04_attr_compiled (m : AttributeMatcher) (name value : Bytes) (pcs : Par
   | some v =>
     obtain ⟨r, hr⟩ := C04_attr_ops_total op (toUnconditional pcs m.isHtmlElement) v value
     refine ⟨r, by simp [hr], ?_⟩
-    have := C04_attr_ops_partial op (toUnconditional pcs m.isHtmlElement) v value h
+    have := C04_attr_ops op (toUnconditional pcs m.isHtmlElement) v value
     rw [hr, Option.some.injEq] at this
     simp only [Option.some.injEq, exists_eq_left', this]
 
@@ -374,17 +252,18 @@ def resolvedCase (flags : AttributeFlags) (name : Bytes) (isHtml : Bool) : Case 
 
 /-- **C04_attr_selector.** End to end for one attribute selector, from its parsed text
 (`parseAttributeSelector`: name, operand, flag, operator) through the compiler to the closure run on
-an element: no panic, and — outside the empty-operand defect — it fires iff the first attribute
+an element: no panic, and it fires iff the first attribute
 named `name` (ASCII-case-insensitively) exists and satisfies the CSS operator in the prescribed
-case mode. ∀ names (any case), operands, flags, operators, attribute lists, namespaces. -/
+case mode. ∀ names (any case), operands (empty included), flags, operators, attribute lists,
+namespaces. -/
 theorem C04_attr_selector (m : AttributeMatcher) (name value : Bytes) (flags : AttributeFlags)
-    (op : Op) (h : value ≠ [] ∨ op = .equal ∨ op = .dashMatch ∨ op = .substring) :
+    (op : Op) :
     ∃ r, compiledAttrExpr false (parseAttributeSelector name value flags op) m = some r ∧
       (r = true ↔ ∃ v, firstAttr m.attributes name = some v ∧
         OpHolds op (resolvedCase flags name m.isHtmlElement) v value) := by
   unfold parseAttributeSelector
   obtain ⟨r, hr, hiff⟩ := C04_attr_compiled m (makeAsciiLowercase name) value
-    (flags.toCaseSensitivity (makeAsciiLowercase name) false) op h
+    (flags.toCaseSensitivity (makeAsciiLowercase name) false) op
   refine ⟨r, hr, ?_⟩
   rw [hiff, firstAttr_makeAsciiLowercase]
   have hcase : toCase (toUnconditional (flags.toCaseSensitivity (makeAsciiLowercase name) false)
